@@ -23,6 +23,11 @@ func c16genClientSide(c *core.Case, r *rand.Rand) {
 	c.Batch = "client-side-service"
 	c.Params["clientside"] = 1
 	c.Params["activate_yields"] = r.IntN(4)
+	if r.IntN(4) == 0 {
+		c.Params["cs_terminate"] = 1
+		c.Params["cs_terminate_delay"] = r.IntN(30)
+		c.Params["cs_terminate_victim"] = r.IntN(8)
+	}
 	actors := 2 + r.IntN(3)
 	for a := 0; a < actors; a++ {
 		n := 2 + r.IntN(4)
@@ -246,6 +251,41 @@ func c16clientSide(c *core.Case, env *core.Env, st *c16state) {
 	}
 	wg.Wait()
 	env.S.Quiesce()
+	if c.P("cs_terminate", 0) == 1 {
+		// the reference to the service is terminated - every object the
+		// client hosts through it goes - while somebody removes one of them
+		var tw sync.WaitGroup
+		var th *core.Hist
+		tw.Add(2)
+		go func() {
+			defer tw.Done()
+			th = env.Invoke(96, "cterminate-all", "")
+			zzsim.SetNode("client0")
+			err := svcRef.Terminate()
+			zzsim.SetNode("harness")
+			env.Return(th, "", err)
+		}()
+		go func() {
+			defer tw.Done()
+			for j := 0; j < c.P("cs_terminate_delay", 0); j++ {
+				zzsim.Yield("h.cterminate-delay")
+			}
+			if rec := pick(int64(c.P("cs_terminate_victim", 0))); rec != nil {
+				remove(97, "cremove", rec)
+			}
+		}()
+		tw.Wait()
+		cs.mu.Lock()
+		for _, rec := range cs.lents {
+			if rec.addRet != 0 && rec.addRet < th.Call && len(rec.removeRets) == 0 {
+				rec.removeCall = th.Call
+				rec.removeRets = append(rec.removeRets, th.Ret)
+			}
+		}
+		cs.mu.Unlock()
+		env.Probe("service-references-terminated")
+		env.S.Quiesce()
+	}
 	// afterwards: every object is called once more
 	cs.mu.Lock()
 	all := append([]*c16lent(nil), cs.lents...)
